@@ -27,6 +27,7 @@ var hostileConsts = []string{
 	"\r", "\n", "\r\n", "\n\r", "\r\r\n", "\r\n ", "\r\n\t", "\x00", "\x01", "\x07", "\x0b", "\x0c", "\x1b", "\x7f",
 	"\xff", "\xc3", "\xe2\x82", "\xed\xa0\x80", "\"", "\\", "\\\"", "\"\"", "(", ")", "(comment)", "<", ">", "<x@y>", "@", ",", ";", ":", "::",
 	" ", "  ", "\t", " \t ", "é", "ü", "日本語", "\U0001F600", "=", "?", "=?", "?=", "_",
+	"%s", "%d", "%%", "%!s(MISSING)", "%n", "%v%v", "{{.}}", "${x}",
 }
 
 func hostileFragment(t *rapid.T, label, marker string, i int) string {
